@@ -32,7 +32,7 @@ CHECKS = {
    note="trusts watutil.Wat2Wasm and the vendored wazero to execute the allocator faithfully; the grow seam is a text substitution of memory.grow by a wasm wrapper that asks the host and then executes the real instruction; heaps up to 64 pages", ref="DESIGN.md section 4 C10"),
  "C11": dict(level="exploration", technique="deterministic simulation of the allocator under generated Wa driver programs and the std packages' own tests: $runtime.malloc/$runtime.free/$runtime.HeapAlloc of the compiler's WAT output are routed to a simulated allocator that injects dirty fresh memory, poison on free, immediate reuse, quarantine and scattered placement from the seed; seeded operation histories; monitors (free of live blocks only, zeroed allocations, poison intact) plus differential check against the fault-free run; shrunk replayable tapes",
    text="Seeded search over generated driver programs (compiled by the real pipeline) and operation histories. Each history runs on fresh instances with the plain allocator and under an injected allocator fault mode; a free of a non-live block, a HeapAlloc result that is not zero, a write to quarantined memory, or any step whose result differs between the two runs is a violation. This is the property's own formulation (output unchanged when freed memory is overwritten on release). Evidence, not proof.",
-   note="programs are the structured drivers of harness/wagen (typed slots, ~100-170 operations each) and the test functions of the std packages, not arbitrary programs; an identical trap in both modes is harness trouble (exit 2), not a C11 violation; trusts Wat2Wasm and wazero to execute the rewritten module", ref="DESIGN.md section 4 C11"),
+   note="programs are the structured drivers of harness/wagen (typed slots, ~240-290 operations each) and the test functions of the std packages, not arbitrary programs; an identical trap in both modes is harness trouble (exit 2), not a C11 violation; trusts Wat2Wasm and wazero to execute the rewritten module", ref="DESIGN.md section 4 C11"),
  "C12": dict(level="exploration", technique="conservation check over the simulated allocator's malloc/free history: seeded acyclic loop bodies of generated driver programs are iterated 8..1024 times by exported calls; live block count and bytes after every iteration (host-side accounting through the WAT allocator seam) must be constant after warm-up and the real allocator's heap extent must stop growing; shrunk replayable tapes",
    text="Seeded search over generated drivers and loop bodies (and, one run in four, loop bodies of map operations on the C13 map drivers of every key kind followed by 'discard every map'); the oracle is exact equality of live blocks and live bytes at the end of every iteration (the reachable state is identical by construction) plus a no-persistent-growth check of the real heap extent. No fault or schedule is injected: this property has no such dimension, the simulator contributes the observation point and the seeded histories. Evidence, not proof.",
    note="loop bodies are sequences of driver operations; acyclicity is guaranteed by the generator's level order and rank guard, not checked at run time", ref="DESIGN.md section 4 C12"),
